@@ -25,12 +25,15 @@ type c19Case struct {
 	GitIgnore  bool     `json:"gitignore"`             // a .gitignore already exists in cwd
 	Messy      bool     `json:"messy"`                 // the valid spokfile is not in canonical format
 	PreCache   bool     `json:"precache"`              // a .spok cache from an earlier run exists
+	IgnoreVar  int      `json:"ignore_var,omitempty"`  // which existing .gitignore text (c19Ignores)
 	SpokMode   int      `json:"spok_mode,omitempty"`   // permission bits of the spokfile (0: 0644)
 	Umask      int      `json:"umask,omitempty"`       // file mode creation mask of the spok process (0: 022)
 	CacheBlock string   `json:"cache_block,omitempty"` // the cache directory cannot be created: "file" (.spok is a regular file) | "rodir" (project directory not writable)
 }
 
-var c19Classes = []string{"valid", "valid-no-tasks", "syntax-error", "duplicate-task", "unknown-builtin", "failing-exec", "absent", "directory", "ident-rhs", "symlink", "dangling-symlink"}
+var c19Ignores = []string{"node_modules/\n*.log", "a\r\nb\r\n", "a\n\n\n", "trail\\ \n", "x\n.spok/\n", "\n", " \t\n"}
+
+var c19Classes = []string{"failing-task-with-outputs", "valid", "valid-no-tasks", "syntax-error", "duplicate-task", "unknown-builtin", "failing-exec", "absent", "directory", "ident-rhs", "symlink", "dangling-symlink"}
 
 func c19Text(class string, messy bool) (string, bool) {
 	valid := "# Project\nNAME := \"proj\"\n\n# Builds\ntask t(\"a.txt\", \"sub/*.txt\") {\n    echo building {{.NAME}}\n}\n\n# Other\ntask u(t) {\n    echo done\n}\n\n"
@@ -55,6 +58,9 @@ func c19Text(class string, messy bool) (string, bool) {
 		return "X := NAME\n" + valid, false // parses, but does not load
 	case "symlink":
 		return valid, true
+	case "failing-task-with-outputs":
+		// the outputs exist already (the harness wrote them a moment ago); the command fails without touching anything
+		return "OUTV := \"outv.txt\"\n\n# Builds\ntask t(\"a.txt\") -> (\"out.txt\", OUTV, \"gen/*.o\") {\n    echo before\n    false\n}\n\n# Other\ntask u(t) {\n    echo done\n}\n\n", true
 	}
 	return "", false
 }
@@ -82,6 +88,14 @@ func c19Cases(tier string) []c19Case {
 						}
 					}
 				}
+			}
+		}
+	}
+	// --init next to a .gitignore that does not end in exactly one LF
+	for iv := 1; iv < len(c19Ignores); iv++ {
+		for _, cl := range []string{"absent", "valid"} {
+			for _, nested := range []bool{false, true} {
+				out = append(out, c19Case{Class: cl, Action: []string{"--init"}, Nested: nested, GitIgnore: true, IgnoreVar: iv})
 			}
 		}
 	}
@@ -122,6 +136,9 @@ func c19Run(root string, c c19Case) (obs []c19Obs, outcome string) {
 	t.File("home/w/sibling.txt", "sibling\n")
 	t.File("outside.txt", "outside\n")
 	t.File("home/w/proj/a.txt", "a\n")
+	t.File("home/w/proj/out.txt", "built earlier\n")
+	t.File("home/w/proj/outv.txt", "built earlier\n")
+	t.File("home/w/proj/gen/x.o", "built earlier\n")
 	t.File("home/w/proj/sub/b.txt", "b\n")
 	t.File("home/w/proj/.hidden", "h\n")
 	t.Mkdir("home/w/proj/nest/deeper")
@@ -163,7 +180,7 @@ func c19Run(root string, c c19Case) (obs []c19Obs, outcome string) {
 	linkClass := c.Class == "symlink" || c.Class == "dangling-symlink"
 	oldIgnore := ""
 	if c.GitIgnore {
-		oldIgnore = "node_modules/\n*.log"
+		oldIgnore = c19Ignores[c.IgnoreVar]
 		t.File(cwdRel+"/.gitignore", oldIgnore)
 	}
 	if c.SpokMode != 0 {
